@@ -2,6 +2,7 @@ import Driver.Codec
 import PyGqlModel.Exec
 import PyGqlModel.World
 import PyGqlModel.DefaultResolver
+import PyGqlModel.ExecArgs
 import PyGqlModel.Spec.ExecSpec
 import PyGqlModel.Spec.ValidDoc
 open PyGql PyGql.Exec
@@ -23,22 +24,47 @@ def argsOfJson (j : J) : List (String × Option String) :=
   | .obj kvs => kvs.map fun (k, v) => (k, match v with | .str s => some s | _ => none)
   | _ => []
 
-partial def selOfJson (j : J) : Sel :=
+/-- argument literal as sent by the harness (same wire form as the C07 driver) -/
+partial def litOfWire (j : J) : PyGql.Coerce.Lit :=
+  let cls : PyGql.Coerce.FCls := match j.strD "cls" with | "inf" => .inf | "nan" => .nan | _ => .finite
+  match j.strD "k" with
+  | "null" => .null
+  | "int" => .int (j.intD "v")
+  | "float" => .float (j.strD "v") cls
+  | "str" => .str (j.strD "v")
+  | "bool" => .bool (j.boolD "v")
+  | "enum" => .enum (j.strD "v")
+  | "var" => .var (j.strD "v")
+  | "list" => .list ((j.arrD "v").map litOfWire)
+  | "obj" => .obj ((j.arrD "v").map fun kv =>
+      match kv with
+      | .arr [.str k, v] => (k, litOfWire v)
+      | _ => ("", .null))
+  | _ => .null
+
+partial def selOfJson (s : SchemaD) (e : ArgEnv) (j : J) : Sel :=
   let dirs := (j.arrD "dirs").map dirOfJson
   match j.strD "k" with
   | "f" =>
     let (hasSub, sub) := match j.get? "sels" with
-      | some (.arr a) => (true, a.map selOfJson)
+      | some (.arr a) => (true, a.map (selOfJson s e))
       | _ => (false, [])
-    .field (j.strD "key") (j.strD "name") (j.natD "loc") dirs (argsOfJson (j.getD "args")) hasSub sub
-  | "i" => .inline ((j.get? "on").bind J.asStr?) dirs ((j.arrD "sels").map selOfJson)
+    -- arguments: coerced by the MODEL (C07's `coerceArgumentValues`) from the argument nodes when these are sent
+    let args := match j.get? "argnodes" with
+      | some (.arr nodes) =>
+        argsTable s e (j.strD "name") (nodes.map fun kv => match kv with
+          | .arr [.str k, v] => (k, litOfWire v)
+          | _ => ("", .null))
+      | _ => argsOfJson (j.getD "args")
+    .field (j.strD "key") (j.strD "name") (j.natD "loc") dirs args hasSub sub
+  | "i" => .inline ((j.get? "on").bind J.asStr?) dirs ((j.arrD "sels").map (selOfJson s e))
   | _ => .spread (j.strD "name") dirs
 
-def docOfJson (j : J) : Doc :=
+def docOfJson (s : SchemaD) (e : ArgEnv) (j : J) : Doc :=
   { ops := (j.arrD "ops").map fun o =>
-      { kind := o.strD "op", name := (o.get? "name").bind J.asStr?, sels := (o.arrD "sels").map selOfJson },
+      { kind := o.strD "op", name := (o.get? "name").bind J.asStr?, sels := (o.arrD "sels").map (selOfJson s e) },
     frags := (j.arrD "frags").map fun f =>
-      { name := f.strD "name", on := f.strD "on", sels := (f.arrD "sels").map selOfJson } }
+      { name := f.strD "name", on := f.strD "on", sels := (f.arrD "sels").map (selOfJson s e) } }
 
 partial def pvalOfJson (j : J) : PVal :=
   let kv (x : J) : String × PVal := match x with
@@ -83,8 +109,9 @@ def handle? (j : J) : Option J :=
   match j.strD "op" with
   | "exec" =>
     let s := Driver.schemaOfJson (j.getD "schema")
-    let doc := docOfJson (j.getD "doc")
     let vars := varsOfJson (j.getD "vars")
+    let env : ArgEnv := { reg := regOfSchema s, fuel := 400, vars := vars.map fun (k, v) => (k, pvOfJ v) }
+    let doc := docOfJson s env (j.getD "doc")
     let w := match j.get? "root" with
       | some r => dataWorld (pvalOfJson r)             -- default resolvers over plain data
       | none => fnvWorld s (j.natD "seed") (j.natD "mode")
